@@ -370,6 +370,9 @@ func contractMentions(fc *FuncContract, prop string) bool {
 	if fc.Decreases != nil {
 		cs = append(cs, *fc.Decreases)
 	}
+	for _, a := range fc.CallAsserts {
+		cs = append(cs, a.Clause)
+	}
 	for _, c := range cs {
 		if hasTagFor(c.Tags, prop) {
 			return true
